@@ -206,3 +206,19 @@ package server
 //@   ensures case absent:  !old(nsPresent(m.namespaces[genIdx(m)], name)) ==> ret0 == nil && genIdx(m) == old(genIdx(m)) && m.namespaces[0] == old(m.namespaces[0]) && m.namespaces[1] == old(m.namespaces[1])
 //@   ensures case switch:  old(nsPresent(m.namespaces[genIdx(m)], name)) ==> ret0 == nil && genIdx(m) == 1 - old(genIdx(m)) && fresh(m.namespaces[genIdx(m)]) && fresh(m.users[genIdx(m)])
 //@   ensures case invalidates: old(nsPresent(m.namespaces[genIdx(m)], name)) ==> !prepared(m)
+
+// ---------------------------------------------------------------- C35 client address allow-list
+//@ property C35: (*Namespace).IsClientIPAllowed, parseAllowIps
+
+// a client may connect iff the allow-list is empty or some entry matches its address
+//@ func (*Namespace).IsClientIPAllowed
+//@   requires n != nil
+//@   assigns \nothing
+//@   loop 0 invariant forall(j, 0, rangeindex + 1, !entryMatches(n.allowips[j], clientIP))
+//@   ensures ret0 <==> (len(n.allowips) == 0 || exists(j, 0, len(n.allowips), entryMatches(n.allowips[j], clientIP)))
+
+// every non-blank configured entry is parsed into the list, or the whole list is rejected
+//@ func parseAllowIps
+//@   assigns \nothing
+//@   loop 0 invariant allowips == nil || fresh(allowips)
+//@   ensures case reject: ret1 != nil ==> ret0 == nil
